@@ -53,7 +53,8 @@ PROPOSED_FINDINGS = [
              "through the neighbouring column, over pins of other wires"},
 ]
 
-BUDGET_S = 20.0          # wall-clock budget for one Schematic(obj): the termination clause
+BUDGET_S = 30.0          # wall-clock budget for one Schematic(obj): the termination clause (+ n_inst^2/1000 s: the passes are
+                         # quadratic and worse; an Or with 380 inputs needs 24 s and 72 000 symbols on the pinned tree)
 
 
 class Timeout(Exception):
@@ -266,6 +267,7 @@ class Batch:
         self.items = []          # dict(spec, path, des, L, abort, seconds, stream)
         self.seen = set()
         self.tmax = 0.0
+        self.timeouts = 0
         self.consts = None
         # the interpreted checker costs about (symbols/500)^2 seconds on a layout: keep its total inside the tier's wall time
         q = tier == 'quick'
@@ -298,7 +300,13 @@ class Batch:
             sp = dict(spec)
             if pth:
                 sp['path'] = list(pth)
-            s, err, secs, out = run_schematic(blk)
+            if self.timeouts >= 3:
+                res.hist('skipped_after_3_timeouts', stream)
+                continue
+            budget = BUDGET_S + len(des['insts']) ** 2 / 1000.0
+            s, err, secs, out = run_schematic(blk, budget)
+            if s is None and err.startswith('no result within'):
+                self.timeouts += 1
             self.tmax = max(self.tmax, secs)
             res.hist('pnr_seconds_log10', 'lt0.01' if secs < 0.01 else 'lt0.1' if secs < 0.1 else 'lt1' if secs < 1 else 'ge1')
             feat = features(des)
@@ -523,7 +531,7 @@ def main(res, tier, rng, replay):
     # ---- exhaustive small netlists
     ex = exhaustive_small(tier)
     if quick:
-        ex = ex[:60] + rng.fork('ex').shuffle(ex[60:])[:240]
+        ex = ex[:60] + rng.fork('ex').shuffle(ex[60:])[:340]
     for sp in ex:
         B.add(sp, 'exhaustive-small')
         if len(B.items) >= 2500:
@@ -531,7 +539,7 @@ def main(res, tier, rng, replay):
     res.cov['exhaustive_small_specs'] = len(ex)
 
     # ---- seeded random netlists outside the known-finding classes (the main failing-input search)
-    n_plain = 500 if quick else 12000
+    n_plain = 1000 if quick else 12000
     sizes = [1, 2, 3, 4, 6, 8, 10, 14] if quick else [1, 2, 3, 4, 5, 6, 8, 10, 12, 16, 20, 28, 40]
     profiles = [{}, {'fb': 40}, {'far': 90, 'fan': 60}, {'fb': 0, 'far': 0}, {'fan': 80}]
     lim_s = 35 if quick else 700
